@@ -15,6 +15,8 @@
 //   writework FILE [COMMENTS]    WriteWorkingFile(FILE, 1, COMMENTS default 0)  -> R ret=<sev> sev=<...>
 //   setstate IDX STATE           MgrNode(IDX)->ChangeState(STATE)         -> R ok | R bad-index
 //   incr                         SetFileIdIncrement() then report         -> R incr=<k> max=<MaxFileId>
+//   readpre FILE                 ReadExchangeFile( FILE, useTechCor = false ); reply as for read
+//   hdr                          -> H <id>/<NAME> ...      header instances the STEPfile holds, in list order
 //   dump                         -> D n=<count> max=<MaxFileId> | <id>/<TYPE>/<state> ...   (TYPE = NAME or (A&B&C))
 //   inst IDX                     -> T <hex of the text STEPwrite(ostream) emits for instance IDX>
 //   vals IDX                     -> V <PART> (<attr name>/<redefining 0|1>/<hex of asStr()>)* | <PART> ...   the values the session
@@ -168,6 +170,9 @@ int main() {
             mgr = new InstMgr( 1 );
             sf = new XFile( *reg, *mgr, w[1] != "0" );
             fprintf( reply, "R reset\n" );
+        } else if( c == "readpre" && w.size() == 2 ) {
+            // pre-technical-corrigendum encoding of redeclared attributes (useTechCor = false)
+            readReply( sf->ReadExchangeFile( w[1], false ) );
         } else if( ( c == "read" || c == "append" || c == "readwork" || c == "appendwork" ) && w.size() == 2 ) {
             Severity r;
             if( c == "read" ) r = sf->ReadExchangeFile( w[1] );
@@ -195,6 +200,17 @@ int main() {
         } else if( c == "incr" && w.size() == 1 ) {
             sf->setIncr();
             fprintf( reply, "R incr=%d max=%d\n", sf->incr(), mgr->MaxFileId() );
+        } else if( c == "hdr" && w.size() == 1 ) {
+            // the header instances the STEPfile holds: file id and entity, in list order
+            InstMgr * hm = sf->HeaderInstances();
+            int n = hm ? hm->InstanceCount() : 0;
+            fprintf( reply, "H" );
+            for( int i = 0; i < n; i++ ) {
+                SDAI_Application_instance * se = hm->GetMgrNode( i )->GetApplication_instance();
+                std::string tmp;
+                fprintf( reply, " %d/%s", se->StepFileId(), std::string( StrToUpper( se->EntityName(), tmp ) ).c_str() );
+            }
+            fprintf( reply, "\n" );
         } else if( c == "dump" && w.size() == 1 ) {
             int n = mgr->InstanceCount();
             fprintf( reply, "D n=%d max=%d |", n, mgr->MaxFileId() );
